@@ -73,6 +73,12 @@ Models ==
       [nodes |-> <<Nd("Constant", <<AT("value", [dt |-> "f32", shape |-> <<3>>, data |-> <<1, 2, 3>>])>>, <<>>, <<"ca">>), Nd("Add", <<>>, <<"x", "ca">>, <<"ya">>),
                    Nd("Constant", <<AT("value", [dt |-> "f32", shape |-> <<3>>, data |-> <<-5, -6, -7>>])>>, <<>>, <<"cb">>), Nd("Add", <<>>, <<"x", "cb">>, <<"yb">>)>>,
        inputs |-> <<InD("x", <<DSym, DFix(3)>>)>>, outputs |-> <<"ya", "yb">>, inits |-> <<>>],
+    \* a defaulted input: the bias is an initializer that is also declared as a graph input; the callers of the odd Runs map its name
+    \* to nil ("not supplied", RunSem!SuppliedTensors) - the default is used, alone and beside other Runs alike
+    defaulted_bias |->
+      [nodes |-> <<Nd("Gemm", <<>>, <<"x", "w", "c">>, <<"g">>), Nd("Relu", <<>>, <<"g">>, <<"y">>)>>,
+       inputs |-> <<InD("x", <<DSym, DFix(2)>>), InD("c", <<DFix(3)>>)>>, outputs |-> <<"g", "y">>,
+       inits |-> [w |-> T("f32", <<2, 3>>, <<1, 0, -1, 2, 1, 0>>), c |-> T("f32", <<3>>, <<100, -200, 300>>)]],
     expand_concat_add |->
       [nodes |-> <<Nd("Expand", <<>>, <<"x", "shp">>, <<"e">>), Nd("Concat", <<AI("axis", 0)>>, <<"x">>, <<"c">>), Nd("Add", <<>>, <<"c", "v">>, <<"s">>)>>,
        inputs |-> <<InD("x", <<DSym, DFix(3)>>)>>, outputs |-> <<"e", "c", "s">>,
@@ -81,6 +87,10 @@ G == Models[mid]
 XShape(g, batch) == LET d == g.inputs[1].dims IN [i \in 1..Len(d) |-> IF d[i].kind = "fixed" THEN d[i].size ELSE batch]
 \* Run r has its own input tensor (other values, other batch size)
 InputOf(r) == T("f32", XShape(G, r), [k \in 1..Size(XShape(G, r)) |-> ((k * (2 * r + 1)) % 7) - 3])
+
+\* what the caller of Run r passes: its own x, and (odd Runs) the names of the defaulted inputs mapped to nil
+DefaultedNames == {G.inputs[i].name : i \in 1..Len(G.inputs)} \cap DOMAIN G.inits
+FeedOf(r) == [n \in {"x"} \cup (IF r % 2 = 1 THEN DefaultedNames ELSE {}) |-> IF n = "x" THEN InputOf(r) ELSE Nil]
 
 MCInit == Init /\ mid \in ModelSet /\ sched = <<>> /\ lock = 0
 
@@ -116,8 +126,8 @@ Emit ==
         P([prop |-> "C17", fam |-> "schedule", kind |-> "sched", op |-> "", attrs |-> <<>>, inputs |-> <<>>, nout |-> 0, allowed |-> NoCrash,
            cmp |-> "num", known |-> <<>>, feat |-> <<mid, IF 0 \in Range(variant) THEN "overlapped" ELSE "serialized">>,
            x |-> [model |-> [nodes |-> G.nodes, inputs |-> G.inputs, outputs |-> G.outputs, inits |-> InitsSeq(G), opset |-> 13, unnamed |-> (mid = "two_unnamed_constants")],
-                  runs |-> [r \in RunIds |-> LET s == RunSem(G, [x |-> InputOf(r)]) IN
-                                              [ins |-> [x |-> InputOf(r)], allowed |-> IF s.ok THEN MustValue(s.out) ELSE NoCrash]],
+                  runs |-> [r \in RunIds |-> LET s == RunSem(G, FeedOf(r)) IN
+                                              [ins |-> FeedOf(r), allowed |-> IF s.ok THEN MustValue(s.out) ELSE NoCrash]],
                   schedule |-> variant]])
    /\ lock' = -1 /\ UNCHANGED <<vars, mid, sched>>
 
